@@ -54,7 +54,7 @@ def shipped():
 
 def budget(tier):
     if tier == 'thorough':
-        return {'seeds': 200000, 'chunk': 200, 'wall_cap': 1500, 'extra': {'big': True}}
+        return {'seeds': 300000, 'chunk': 300, 'wall_cap': 1200, 'extra': {'big': True}}
     return {'seeds': 12000, 'chunk': 100, 'wall_cap': 240, 'extra': None}
 
 
